@@ -116,7 +116,7 @@ func runC07(line string) string {
 			}
 			cl.mu.Unlock()
 			sc.send(v.bytes(), nil)
-			r, err := sc.recv(5 * time.Second)
+			r, err := sc.recvPatient(5 * time.Second)
 			if err != nil {
 				outs = append(outs, "TIMEOUT")
 				continue
@@ -136,7 +136,7 @@ func runC07(line string) string {
 				}
 				settle(60 * time.Millisecond)
 				sc.send(v.bytes(), nil)
-				if r, err = sc.recv(5 * time.Second); err != nil {
+				if r, err = sc.recvPatient(5 * time.Second); err != nil {
 					break
 				}
 			}
@@ -196,7 +196,7 @@ func runC07(line string) string {
 			cl.dropNextExec = true
 			cl.mu.Unlock()
 			sc.send(v.bytes(), nil)
-			r, err := sc.recv(5 * time.Second)
+			r, err := sc.recvPatient(5 * time.Second)
 			cl.mu.Lock()
 			cl.dropNextExec = false
 			ex := 0
